@@ -935,7 +935,6 @@ func (g *Gen) GenNestedTop(i int) *Top {
 	return top
 }
 
-
 // GenLogicTop: WHERE keeps TRUE only.  A table with columns that hold NULLs (a, s, f) and columns that never do
 // (b, d); boolean expressions of depth <= 3 built from comparisons on both kinds of column, IS [NOT] NULL, literals,
 // NOT, AND, OR, = TRUE|FALSE, used as the WHERE predicate and as a select expression.
